@@ -107,6 +107,8 @@ def check(ctx, doc, ops, cls):
 
     ctx.evaluation()
     case = {"doc": doc, "ops": ops, "class": cls}
+    if getattr(ctx, "_force_builder", False):
+        case["builder_from_parts"] = True
     try:
         want = rp.apply_patch(doc, ops)
         fail = None
@@ -140,6 +142,28 @@ def check(ctx, doc, ops, cls):
     if not strict_eq(o.value, want):
         ctx.violation("result-differs-from-rfc:%s" % opn, case, {"ops": ops, "doc": canon(doc)[:200], "result": canon(o.value)[:300], "expected": canon(want)[:300]})
         return
+    if len(ops) <= 3 and (case.get("builder_from_parts") or ctx.rng.random() < 0.15):
+        # the same operations through the builder API with pointer objects built from tokens
+        from jsonpath import JSONPatch, JSONPointer
+
+        def ptr(text):
+            return JSONPointer.from_parts(rp.decode(text), unicode_escape=False) if (case.get("builder_from_parts") or ctx.rng.random() < 0.5) else text
+        try:
+            b = JSONPatch()
+            for op in copy.deepcopy(ops):
+                if op["op"] in ("add", "replace", "test"):
+                    getattr(b, op["op"])(ptr(op["path"]), op["value"])
+                elif op["op"] == "remove":
+                    b.remove(ptr(op["path"]))
+                else:
+                    getattr(b, op["op"])(ptr(op["from"]), ptr(op["path"]))
+            ob = impl.call(b.apply, copy.deepcopy(doc))
+        except Exception as e:  # noqa: BLE001
+            ob = impl.Outcome(False, exc=e)
+        ctx.count("builder_route_applications")
+        if not ob.ok or not strict_eq(ob.value, want):
+            ctx.violation("builder-route-differs-from-rfc:%s" % opn, case, {"ops": ops, "doc": canon(doc)[:200], "builder": ob.desc() if not ob.ok else canon(ob.value)[:300], "expected": canon(want)[:300]})
+            return
     if aliased_containers(o.value):
         ctx.violation("result-shares-structure:%s" % opn, case, {"ops": ops, "doc": canon(doc)[:200], "result": canon(o.value)[:300]})
         return
@@ -218,4 +242,5 @@ def finalize(m, tier):
 
 
 def replay(case, ctx):
+    ctx._force_builder = bool(case.get("builder_from_parts"))
     check(ctx, case["doc"], case["ops"], case.get("class", "replay"))
